@@ -554,7 +554,7 @@ pub fn run(seed: u64, n: usize, out: &mut dyn Write) {
                     write(&env, "user.csv", d.user.as_ref().unwrap());
                     args.extend(["-u".into(), p(&env, "user.csv")]);
                 }
-                let input: Vec<u8> = sents.iter().flat_map(|x| x.bytes().chain(std::iter::once(b'\n'))).collect();
+                let input: Vec<u8> = crate::cli::stdin_lines(&mut rng, &sents);
                 let (st, printed) = run_bin(&env, "tokenize", &args, Some(&input));
                 let obs = status_obs(st, || hex(&printed));
                 let mut line = format!("evalsplit {id} {} {}", if wakati { "WAKATI" } else { "DETAIL" }, toks.len());
